@@ -10,6 +10,11 @@
 (* values of different types) and containers of containers.                *)
 (* All pairs and triples: the first index is the model's state (spread     *)
 (* over the workers), the others are quantified.                           *)
+(* Every eighth member occurs a second time (its "fresh twin": law Fresh), *)
+(* and after the first judgement a round of mutators turns every eighth    *)
+(* member into its right neighbour of the same type (and its twin with it) *)
+(* for a second judgement of the same universe (laws again, and Stable):   *)
+(* the reference relations are functions of the values, so they must pass. *)
 (* With AsIsMaps = TRUE (MC_ValueLaws_asis.cfg) TLC refutes PAntisym: the  *)
 (* map comparison golib had is not a lawful order.                         *)
 (***************************************************************************)
@@ -38,26 +43,43 @@ InnerAll == <<VList(<<>>), VMap(<< <<<<97>>, VDecimal(W(1))>> >>), VMap(<< <<<<>
 
 Inner == SubSeq(InnerAll, 1, IF SmallN < 5 THEN SmallN ELSE 5)
 
-U == FullScalars \o ExtraScalars \o Containers(SmallScalars) \o Containers(Inner)
+U0 == FullScalars \o ExtraScalars \o Containers(SmallScalars) \o Containers(Inner)
+N0 == Len(U0)
+ND == (N0 + 7) \div 8
+U == U0 \o [k \in 1..ND |-> U0[8 * (k - 1) + 1]]
 N == Len(U)
+TwinU == Tup([i \in 1..N |-> IF i > N0 THEN 8 * (i - N0 - 1) + 1 ELSE IF i % 8 = 1 THEN N0 + ((i - 1) \div 8) + 1 ELSE 0])
 
 EU == Tup([i \in 1..N |-> Tup([j \in 1..N |-> IF RefEquals(U[i], U[j]) THEN 1 ELSE 0])])
 CU == Tup([i \in 1..N |-> Tup([j \in 1..N |-> RefCompare(U[i], U[j])])])
 \* the spec's own decoder returns the very value (MC_Value), so "the decoded copy of i" is i
 DecU == Tup([i \in 1..N |-> IF RoundTrips(U[i]) THEN i ELSE 0])
-PoolU == MkPool(U, EU, CU, DecU)
+PoolU == MkPoolT(U, EU, CU, DecU, TwinU)
+
+\* the second judgement: the members of Mut were mutated into their right neighbours (same type), their twins with them
+Mut == {i \in 1..(N0 - 1) : i % 8 = 1 /\ U[i].t = U[i + 1].t}
+Sigma == Tup([i \in 1..N |-> IF i \in Mut THEN i + 1 ELSE IF i > N0 /\ TwinU[i] \in Mut THEN TwinU[i] + 1 ELSE i])
+V == Tup([i \in 1..N |-> U[Sigma[i]]])
+EV == Tup([i \in 1..N |-> Bind(EU[Sigma[i]], LAMBDA row : Tup([j \in 1..N |-> row[Sigma[j]]]))])
+CV == Tup([i \in 1..N |-> Bind(CU[Sigma[i]], LAMBDA row : Tup([j \in 1..N |-> row[Sigma[j]]]))])
+PoolV == MkPoolT(V, EV, CV, DecU, TwinU)
+MutSeq == SelectSeq([i \in 1..N0 |-> i], LAMBDA i : i \in Mut)
+OpsM == [k \in 1..Len(MutSeq) |-> [i |-> MutSeq[k], op |-> CHOOSE o \in Mutators(U[MutSeq[k]].t) : TRUE]]
 
 \* The first index is chosen in two steps (a block, then a member of the block) so that TLC's
 \* workers share the universe: focus = {-b} marks "block b chosen, nothing judged yet".
 NBlocks == 32
-MCInit == pool = EmptyPool /\ focus = {}
-PickBlock == pool = EmptyPool /\ focus = {} /\ focus' \in {{-b} : b \in 1..NBlocks} /\ UNCHANGED pool
+MCInit == LInit
+PickBlock == pool.n = 0 /\ focus = {} /\ focus' \in {{-b} : b \in 1..NBlocks} /\ UNCHANGED <<pool, prev, cont, muts>>
 MCNext == \/ PickBlock
-          \/ /\ pool = EmptyPool /\ focus # {}
+          \/ /\ pool.n = 0 /\ focus # {}
              /\ \E i \in Members(PoolU) : {-((i % NBlocks) + 1)} = focus /\ Judge(PoolU, {i})
+          \/ pool.n > 0 /\ prev.n = 0 /\ ~cont /\ Mutate(OpsM)
+          \/ cont /\ Judge(PoolV, focus)
 MCSpec == MCInit /\ [][MCNext]_lvars
 
 ASSUME \A i \in 1..N : IsValue(U[i]) /\ DecU[i] = i
+ASSUME Mut # {} /\ \E i \in Mut : TwinU[i] # 0
 ASSUME {U[i].t : i \in 1..N} = TypeCodes
 ASSUME \E i \in 1..N : PoolU.nan[i]
 ASSUME \A i \in 1..N : PoolU.nan[i] <=> U[i].t \in {TFloat, TDouble} /\ HasNaN(U[i])
